@@ -88,7 +88,14 @@ func (bp bitPred) and(o bitPred) bitPred {
 
 // not is defined for a pure positive conjunction only.
 func (bp bitPred) not() (bitPred, bool) {
-	if bp.never || len(bp.negs) > 0 {
+	if bp.never {
+		return bitPred{pos: conj{}}, true
+	}
+	if len(bp.pos) == 0 && len(bp.negs) == 1 {
+		// the negation of "not P" is P
+		return bitPred{pos: bp.negs[0]}, true
+	}
+	if len(bp.negs) > 0 {
 		return bitPred{}, false
 	}
 	if len(bp.pos) == 1 {
